@@ -27,6 +27,11 @@ func CmdSelftest(args []string) int {
 		}
 		sort.Strings(ids)
 	}
+	if selftestGoCache == "" {
+		c, drop := scratchGoCache()
+		selftestGoCache = c
+		defer drop()
+	}
 	failed := 0
 	type row struct{ ID, Patch, Result, Detail string }
 	var rows []row
@@ -58,26 +63,62 @@ func CmdSelftest(args []string) int {
 	return 0
 }
 
+// selftestGoCache: disposable clone of the build cache used by the patched runs (see scratchGoCache).
+var selftestGoCache string
+
 func selftestOne(id, patch string) (string, string) {
 	scratch, err := os.MkdirTemp("", "gvc-scratch")
 	if err != nil {
 		return "ERROR", err.Error()
 	}
 	defer os.RemoveAll(scratch)
+	// the patched files are handed to the check as an overlay on /repo's working tree: nothing is
+	// copied but the files the patch touches, and only their packages (and importers) are recompiled
 	repo := filepath.Join(scratch, "repo")
-	// copy working tree without .git
-	cp := exec.Command("rsync", "-a", "--exclude", ".git", RepoDir+"/", repo+"/")
-	if out, err := cp.CombinedOutput(); err != nil {
-		return "ERROR", "rsync: " + string(out)
+	pb, err := os.ReadFile(patch)
+	if err != nil {
+		return "ERROR", err.Error()
+	}
+	var files []string
+	seenFile := map[string]bool{}
+	for _, l := range strings.Split(string(pb), "\n") {
+		for _, pre := range []string{"+++ b/", "--- a/"} {
+			if strings.HasPrefix(l, pre) {
+				f := strings.TrimSpace(strings.SplitN(l[len(pre):], "\t", 2)[0])
+				if f != "" && f != "/dev/null" && !seenFile[f] {
+					seenFile[f] = true
+					files = append(files, f)
+				}
+			}
+		}
+	}
+	for _, f := range files {
+		dst := filepath.Join(repo, f)
+		os.MkdirAll(filepath.Dir(dst), 0o755)
+		if b, err := os.ReadFile(filepath.Join(RepoDir, f)); err == nil {
+			os.WriteFile(dst, b, 0o644)
+		}
 	}
 	ap := exec.Command("patch", "-p1", "-s", "-i", patch)
 	ap.Dir = repo
 	if out, err := ap.CombinedOutput(); err != nil {
 		return "ERROR", "patch does not apply: " + tail(string(out), 300)
 	}
+	overlay := map[string]string{}
+	for _, f := range files {
+		if _, err := os.Stat(filepath.Join(repo, f)); err == nil {
+			overlay[filepath.Join(RepoDir, f)] = filepath.Join(repo, f)
+		}
+	}
+	ob, _ := json.Marshal(overlay)
+	ovf := filepath.Join(scratch, "overlay.json")
+	os.WriteFile(ovf, ob, 0o644)
 	self, _ := os.Executable()
 	cmd := exec.Command(self, "check", id, "--tier", "quick")
-	cmd.Env = append(envList(), "GVC_REPO="+repo, "GVC_VERIF_OUT="+filepath.Join(scratch, "verifout"))
+	cmd.Env = append(envList(), "GVC_OVERLAY="+ovf, "GVC_VERIF_OUT="+filepath.Join(scratch, "verifout"))
+	if selftestGoCache != "" {
+		cmd.Env = append(cmd.Env, "GOCACHE="+selftestGoCache)
+	}
 	out, _ := cmd.CombinedOutput()
 	s := string(out)
 	if strings.Contains(s, "VIOLATION property="+id) {
